@@ -50,7 +50,8 @@ def run_inner(args):
     import yastn.tn.fpeps as fpeps
     import yastn.tn.mps as mps
     from yastn import YastnError
-    fi, seed, ngates = args
+    fi, seed, ngates = args[:3]
+    focus = args[3] if len(args) > 3 else None       # 'chain': circuits of genuine multi-site fermionic MPO gates (hopping chains along paths) on states with ancillas
     rng = random.Random(seed)
     fam = pepsx.Family(*pepsx.FAMILIES[fi])
     nm = fam.nm
@@ -64,7 +65,7 @@ def run_inner(args):
             raise Machinery('sites() is not in fermionic order')
     tag = '%s/%s %s%s seed=%d' % (fam.kind, fam.sym, boundary, dims, seed)
     # ---- initial product state ----
-    mode = rng.choice(('proj', 'proj', 'pure', 'purif'))
+    mode = rng.choice(('proj', 'proj', 'pure', 'purif')) if focus != 'chain' else rng.choice(('purif', 'purif', 'proj', 'pure'))
     if mode == 'purif' and (2 ** nm) ** (2 * N) > 300:
         mode = 'proj'            # a full purification has (2^nm)^(2N) amplitudes: kept to what TLC multiplies in seconds
     vecs = {}
@@ -96,8 +97,8 @@ def run_inner(args):
     cur = 0
     others = []          # (register id, Peps) for additions
     for step in range(ngates):
-        kind = rng.choice(('nn', 'nn', 'nn', 'nn_svd', 'local', 'mpo', 'long', 'sum'))
-        if step == 0 and rng.random() < 0.35:
+        kind = rng.choice(('nn', 'nn', 'nn', 'nn_svd', 'local', 'mpo', 'long', 'sum')) if focus != 'chain' else rng.choice(('nn', 'mpo', 'mpo', 'nn_svd'))
+        if focus != 'chain' and step == 0 and rng.random() < 0.35:
             kind = 'long'        # while the sites still carry different single sectors (product state)
         before = psi.copy()
         what = '%s step %d %s' % (tag, step, kind)
@@ -145,12 +146,17 @@ def run_inner(args):
                 path = nn_paths(g, min(L, N), rng)
                 if path is None or len(path) < 2:
                     continue
+                if focus == 'chain':
+                    path = nn_paths(g, min(rng.choice((3, 3, 4)), N), rng) or path
                 L = len(path)
                 I = mps.product_mpo(fam.named['I'], L)
                 terms, tl = [], []
-                for _ in range(rng.randint(1, 3)):
-                    a, b = rng.choice(fam.pairs)
-                    p0, p1 = rng.sample(range(L), 2)
+                # 'chain': a * 1 + sum_i (b_i A_i B_{i+1}) with A, B odd operators on CONSECUTIVE positions: the middle tensors of the MPO are genuine operators whose two
+                # virtual legs carry different parities (an identity filled in between two ends never does that)
+                odd = [pr for pr in fam.pairs if pr[0][0] == 'c' and pr[1][0] == 'c']
+                plan = [(rng.choice(fam.pairs), rng.sample(range(L), 2)) for _ in range(rng.randint(1, 3))] if focus != 'chain' or not odd else \
+                       [(('I', 'I'), [0, 1])] + [(rng.choice(odd), [i, i + 1] if rng.random() < 0.8 else [i + 1, i]) for i in range(L - 1) if rng.random() < 0.85]
+                for (a, b), (p0, p1) in plan:
                     c = rng.choice([x for x in pepsx.COEFS])
                     if a == 'I' and b == 'I':
                         terms.append(mps.Hterm(c, (), ()))
@@ -304,7 +310,7 @@ def gate_events(args):
     import yastn.tn.fpeps as fpeps
     fi, seed = args
     rng = random.Random(seed)
-    fam = pepsx.Family(*pepsx.FAMILIES[fi])
+    fam = pepsx.Family(*(pepsx.FAMILIES[fi] if fi >= 0 else pepsx.FAMILIES_TJ[-fi - 1]))
     nm, N2 = fam.nm, 2 * fam.nm
     gates = fpeps.gates
     out = []
@@ -380,9 +386,9 @@ def gate_events(args):
     def step():
         return rng.choice((0.05, 0.3, 1.0, 0.2j, -0.5j, 0.1 + 0.3j, -0.4))
 
-    def check(name, gate, H, st, params):
+    def check(name, gate, H, st, params, proj=None):
         Gd = dense_gate(gate)
-        ref = scipy.linalg.expm(-st * H)
+        ref = scipy.linalg.expm(-st * H) if proj is None else proj @ scipy.linalg.expm(-st * (proj @ H @ proj)) @ proj     # proj: H and the gate live on a subspace (t-J)
         err = float(np.linalg.norm(Gd - ref))
         out.append({'op': 'verdict', 'what': 'gate %s %s/%s params=%s step=%s err=%.2e' % (name, fam.kind, fam.sym, params, st, err),
                     'verdicts': {'gate_equals_expm': bool(err <= 1e-10 * max(1.0, float(np.linalg.norm(ref))))}})
@@ -403,6 +409,23 @@ def gate_events(args):
             check('nn_exp', gates.gate_nn_exp(st, I, Ht), Hx, st, tuple(co))
             Hl = co[0] * named['n']
             check('local_exp', gates.gate_local_exp(st, I, Hl), co[0] * matrix(['n'], [0]), st, (co[0],))
+        elif fam.kind == 'tJ':
+            # the same closed forms with the operators of SpinfulFermions_tJ: H is the projection of the spinful H on the space without doubly occupied sites, where
+            # c c+ is NOT 1 - n (c_u c+_u projects on the EMPTY site)
+            Pm = np.diag([0.0 if any({k * nm + 1, k * nm + 2} <= S for k in range(2)) else 1.0 for S in sets])
+            hop = lambda a, b: matrix([a, b], [0, 1]) + matrix([a, b], [1, 0])
+            nn = lambda a, b: matrix([a, b], [0, 1])
+            t = par()
+            check('nn_hopping_up(tJ)', gates.gate_nn_hopping(t, st, I, named['cu'], named['cpu']), -t * hop('cpu', 'cu'), st, (t,), proj=Pm)
+            check('nn_hopping_dn(tJ)', gates.gate_nn_hopping(t, st, I, named['cd'], named['cpd']), -t * hop('cpd', 'cd'), st, (t,), proj=Pm)
+            tu, td, J = par(), par(), par()
+            mus = [par() for _ in range(4)]
+            H = (0.5 * J * (matrix(['Sp', 'Sm'], [0, 1]) + matrix(['Sm', 'Sp'], [0, 1])) - 0.5 * J * (nn('nu', 'nd') + nn('nd', 'nu'))
+                 - tu * hop('cpu', 'cu') - td * hop('cpd', 'cd') - mus[0] * matrix(['nu'], [0]) - mus[1] * matrix(['nu'], [1]) - mus[2] * matrix(['nd'], [0]) - mus[3] * matrix(['nd'], [1]))
+            if all(abs(np.imag(x)) == 0 for x in [tu, td, J] + mus):
+                check('nn_tJ(tJ)', gates.gate_nn_tJ(J, tu, td, mus[0], mus[1], mus[2], mus[3], st, I, named['cu'], named['cpu'], named['cd'], named['cpd']), H, st, (J, tu, td, mus), proj=Pm)
+            mu_u = par()
+            check('local_occupation_up(tJ)', gates.gate_local_occupation(mu_u, st, I, named['nu']), -mu_u * matrix(['nu'], [0]), st, (mu_u,), proj=Pm)
         elif fam.kind == 'spinful':
             tu, td, J = par(), par(), par()
             mus = [par() for _ in range(4)]
@@ -454,8 +477,11 @@ def main(tier, seed, replay=None):
     nF = len(pepsx.FAMILIES)
     n, ng = (96, 5) if tier == 'quick' else (1200, 7)
     jobs = [(i % nF, seed * 1000033 + i, ng) for i in range(n)]
+    fermi = [k for k in range(nF) if pepsx.FAMILIES[k][0] != 'spin']
+    jobs += [(fermi[i % len(fermi)], seed * 1000041 + i, 4, 'chain') for i in range(60 if tier == 'quick' else 600)]
     djobs = [(i % nF, seed * 1000037 + i) for i in range(16 if tier == 'quick' else 200)]
     gjobs = [(i % nF, seed * 1000039 + i) for i in range(nF * (1 if tier == 'quick' else 12))]
+    gjobs += [(-1 - (i % 3), seed * 1000043 + i) for i in range(3 * (1 if tier == 'quick' else 12))]       # predefined gates with the t-J operators
     with ProcessPoolExecutor(max_workers=14) as ex:
         circuits = list(ex.map(run, jobs, chunksize=2))
         dpts = list(ex.map(dpt_events, djobs, chunksize=2))
